@@ -1,6 +1,6 @@
 (* C17 — lookup data handed out by the library cannot be corrupted by callers. *)
 From Coq Require Import List.
-From GV Require Import Tables.Copies Tables.Alias Tables.AliasFacts Gen.AliasGen Tables.AliasGenFacts.
+From GV Require Import Tables.Copies Tables.Alias Tables.AliasFacts Tables.AliasClosed Gen.AliasGen Tables.AliasGenFacts.
 
 (* In the object-identity model of the copy discipline (each lookup allocates a fresh
    object holding a copy of the library's table; callers address objects only): for every
@@ -40,3 +40,11 @@ Theorem C17_fresh_sound : forall (fs : list afun) o f s0 trace,
   (forall l, In l (written s) -> In l (written s0) \/ next s0 <= l < next s).
 Proof. exact all_fresh_sound. Qed.
 Print Assumptions C17_fresh_sound.
+
+(* Closed over calls: at any call depth, whatever a function of the translated library may
+   return — its flattened body run in any order, its callees returning whatever they may
+   return — is an object allocated by that very call. *)
+Theorem C17_lookups_return_fresh_objects :
+  forall d f n l n', call_result alias_functions d f n l n' -> n <= l < n'.
+Proof. exact (call_results_are_fresh alias_functions lookups_all_fresh). Qed.
+Print Assumptions C17_lookups_return_fresh_objects.
